@@ -36,6 +36,8 @@ def may_suspend(nodes):
 class FlowMixin:
     # ================================================================== loops
     def loop_label(self, st, stmt, kind):
+        if getattr(stmt, "_label_override", None):
+            return stmt._label_override
         return "%s#%d" % (kind, self.rel_line(st, getattr(stmt, "_comp_of", stmt)))
 
     def loop_invs(self, st, label):
